@@ -121,7 +121,11 @@ class C12(Prop):
     level_note = (
         "Trusted: Coq kernel + vm_compute; harness (generator, exact float->Q literals); the "
         "field-polymorphic model is executed at Q and the theorems are proved at R (instance "
-        "independence of the definition, no transfer lemma); float rounding is not covered "
+        "independence of the definition is trusted for the four matrices; for the "
+        "K-orthogonality checker the Q->R transfer is proved, C12_korth_checker); the exact "
+        "K-orthogonality hypothesis is validated only on instances whose float geometry "
+        "arrays satisfy it exactly (counted in the evidence), the oracle covers all "
+        "Cartesian/tensor instances numerically; float rounding is not covered "
         "(comparison tolerance 1e-9 relative inside Coq). ORACLE-ONLY: the claim that the TPFA "
         "flux and bound_flux matrices coincide with MPFA on Cartesian/tensor grids with diagonal "
         "permeability is checked numerically (pp.Mpfa vs pp.Tpfa) and is not a theorem. Linear "
